@@ -241,6 +241,7 @@ func checkUntrustedCtor(c *fw.Ctx, short string, fn *ssa.Function) {
 		c.Expect(okEq, rule, construct, c.P.Pos(fw.InstrPos(r)), "receiver returned only when its JSON equals its redaction", "no comparison of the event with its redaction was recognised before the receiver is returned after a hash mismatch")
 	}
 	c.Min(rule+" "+short+" returns after mismatch", nret, 2)
+	checkNoOpRedact(c, rule, short, outer)
 
 	// 2. bytes: hash argument = canonicalised stripped input = stored eventJSON = decoded bytes
 	rule2 := "2 hashed-bytes"
@@ -287,4 +288,57 @@ func checkUntrustedCtor(c *fw.Ctx, short string, fn *ssa.Function) {
 		}
 	}
 	c.Check(okUm, rule2, short+": struct fields are decoded from the stripped bytes", c.P.Pos(fn.Pos()), "", "json.Unmarshal into the event struct reads different bytes than the ones that are hashed and stored (keys added by other servers, e.g. event_id or unsigned, become observable through accessors)")
+}
+
+// checkNoOpRedact: Redact() returns at once for an event already marked redacted. A
+// constructor that marks its event redacted and then relies on Redact() (directly or in a
+// helper it hands the event to) to strip it hands back the tampered content under the flag.
+func checkNoOpRedact(c *fw.Ctx, rule, short string, ctor *ssa.Function) {
+	rootAlloc := func(v ssa.Value, fr *fw.Frame) ssa.Value {
+		r, _ := rootOf(v, fr)
+		for i := 0; i < 6; i++ {
+			switch x := r.(type) {
+			case *ssa.FieldAddr:
+				r = x.X
+				continue
+			case *ssa.MakeInterface:
+				r = x.X
+				continue
+			case *ssa.ChangeInterface:
+				r = x.X
+				continue
+			}
+			break
+		}
+		return r
+	}
+	for _, dc := range deepCallsTo(ctor, func(n string) bool { return strings.HasSuffix(n, ".Redact") }) {
+		var recv ssa.Value
+		if dc.Call.Common().IsInvoke() {
+			recv = dc.Call.Common().Value
+		} else if len(dc.Call.Common().Args) > 0 {
+			recv = dc.Call.Common().Args[0]
+		}
+		if recv == nil {
+			continue
+		}
+		obj := rootAlloc(recv, dc.Fr)
+		// the instruction of the constructor through which the call is reached
+		var site ssa.Instruction = dc.Call.(ssa.Instruction)
+		for f := dc.Fr; f != nil; f = f.Parent {
+			site = f.Site
+		}
+		for _, st := range fw.FieldStores(ctor, "eventV1", "redacted") {
+			k, isC := st.Val.(*ssa.Const)
+			if !isC || k.Value == nil || k.Value.String() != "true" {
+				continue
+			}
+			if rootAlloc(st.Addr, nil) != obj {
+				continue
+			}
+			if st.Block().Dominates(site.Block()) && reachesInstr(st, site) {
+				c.Fail(rule, short+": an event is not marked redacted before Redact() is asked to strip it", c.P.Pos(dc.Call.Pos()), "Redact() is called on the event after `redacted = true` was stored on it ("+c.P.Pos(fw.InstrPos(st))+"): Redact() returns immediately for an event that is already marked, so the tampered fields stay in place under the redacted flag")
+			}
+		}
+	}
 }
